@@ -66,6 +66,11 @@ def w_cross(ctx, rng, i):
         ctx.bump("cases_with_an_empty_landmark_group")
     if rng.random() < 0.3:
         s.points = gen.hostile_array(rng, s.points)
+    from menpo.transform.piecewiseaffine.base import AbstractPWA as _PWA
+    if isinstance(t, _PWA) and rng.random() < 0.3:
+        # a shape that sticks out of the warp's domain: the application is refused - and the shape handed in is as it was
+        s.points = s.points * np.asarray(2.6, dtype=s.points.dtype)
+        ctx.bump("shapes_reaching_outside_the_warp_domain")
     held = [(k, v) for k, v in s.landmarks.items()] if nlm else []
     bs = [None, None, 1, 2, 3, 50][rng.integers(0, 6)]
     if has_empty:
